@@ -338,8 +338,10 @@ Definition multi_send (s : state) (from : addr) (inc : coins) (outs : list (addr
       else None
   end.
 
-(* BankKeeper.InputOutputCoinsProv with several inputs (distinct addresses) and one output that
-   receives their sum: all inputs are debited first, then the restriction runs once per input *)
+(* BankKeeper.InputOutputCoinsProv with several inputs and one output that receives their sum: all
+   inputs are debited first, then the restriction runs once per input.  (The bank sums the coins
+   of a repeated input address and debits the sum once; without locked coins that succeeds
+   exactly when debiting the inputs one after the other does, and leaves the same balances.) *)
 Definition multi_in (s : state) (ins : list (addr * coins)) (to : addr) : option state :=
   match ins with
   | [] => None
